@@ -1,7 +1,7 @@
 (* Properties_C04.v — RingBuffer behaves as a bounded double-ended queue.
    Only statements, each closed by [exact <lemma of RingProofs>], and Print Assumptions. *)
 From Coq Require Import List ZArith Bool Lia.
-From Tulz Require Import Common RingModel RingInv RingProofs.
+From Tulz Require Import Common RingModel RingInv RingProofs RingAliasProofs.
 Import ListNotations.
 Local Open Scope Z_scope.
 
@@ -83,6 +83,16 @@ Theorem C04_refines_deque : forall ow ops,
   map view_ring (ring_trace fixed_variant ow env0 ops) = map view_deque (deque_trace ow denv0 ops).
 Proof. exact ring_refines_deque. Qed.
 Print Assumptions C04_refines_deque.
+
+(* Pushes whose argument refers to an element of the same buffer (push_back(rb[i]), push_front(rb[i]); the lines
+   [16; b; i] and [17; b; i] of the correspondence runs): the trace of every history containing them is the trace of a
+   history of ordinary operations — each aliasing push being the push of the value that element holds at that moment —
+   so the theorem above covers them. *)
+Theorem C04_alias_histories : forall ow ops,
+  map view_ring (ring_trace_d fixed_variant ow env0 ops) =
+  map view_deque (deque_trace ow denv0 (desugar_all fixed_variant ow env0 ops)).
+Proof. exact alias_refines_deque. Qed.
+Print Assumptions C04_alias_histories.
 
 (* non-vacuity: a wrapped-around, full, well-formed buffer exists and is reached by a history *)
 Example C04_nonvacuous :
